@@ -188,6 +188,37 @@ pub fn j_consts(k: u64, c: i128, ts: TimeScale, out: &mut Local) {
     }
 }
 
+/// Formatter::to_time_scale(epoch, format, ts) prints the fields of the epoch re-expressed in ts
+pub fn j_to_scale(c: i128, src: TimeScale, dst: TimeScale, leap: &LeapTable, out: &mut Local) {
+    let args = vec![scale_name(src).to_string(), enc(c), scale_name(dst).to_string()];
+    let Some(cd) = scales::to_tai(c, src, leap).and_then(|t| scales::from_tai(t, dst, leap)) else {
+        out.dc(0);
+        return;
+    };
+    let e = Epoch::from_duration(mk(c), src);
+    let r = guard(|| {
+        let f = Format::from_str("%A %Y-%m-%d %j %H:%M:%S.%f %T").unwrap();
+        let a = format!("{}", Formatter::to_time_scale(e, f, dst));
+        let mut fm = Formatter::new(e.to_time_scale(dst), Format::from_str("%Y-%m-%dT%H:%M:%S%z").unwrap());
+        fm.set_timezone(mk(90 * 60 * NS_S));
+        (a, format!("{fm}"))
+    });
+    let (y, m, d, h, mi, s, ns) = text::fields(cd, dst);
+    let want = format!("{} {y:04}-{m:02}-{d:02} {:03} {h:02}:{mi:02}:{s:02}.{ns:09} {}", text::WEEKDAYS[weekday1900(days1900(y, m, d)) as usize], day_of_year(y, m, d), text::scale_str(dst));
+    // set_timezone only records the offset to print: the fields stay those of the epoch
+    let want2 = format!("{y:04}-{m:02}-{d:02}T{h:02}:{mi:02}:{s:02}+01:30");
+    match r {
+        Ok((a, b)) if a == want && b == want2 => {
+            out.ok(2, src != dst, (src as u64) * 9 + dst as u64);
+            if out.want_sample(src != dst) {
+                out.sample("c19.to_time_scale", args, a, src != dst);
+            }
+        }
+        Ok((a, b)) => out.viol("c19.to_time_scale", format!("wrong,{}->{}", scale_name(src), scale_name(dst)), args, format!("{want} | {want2}"), format!("{a} | {b}")),
+        Err(p) => out.viol("c19.to_time_scale", format!("panic:{}", p.class()), args, "no panic".into(), format!("{} {}", p.loc, p.msg)),
+    }
+}
+
 /// %z with every offset -23:59 .. +23:59
 pub fn j_offset(minutes: i128, c: i128, out: &mut Local) {
     let args = vec![minutes.to_string(), enc(c)];
@@ -393,6 +424,13 @@ pub fn run(rep: &mut Report) {
     });
     let oc = [eps[0].1, super::c08::expected_count(days1900(2016, 12, 31), 86_399 * NS_S, TimeScale::UTC), super::c08::expected_count(days1900(2000, 2, 29), 12 * 3600 * NS_S + 37, TimeScale::UTC)];
     sweep(rep, "c19.offset", 2879 * 3, |i, out| j_offset((i / 3) as i128 - 1439, oc[(i % 3) as usize], out));
+    let ts7 = [TimeScale::TAI, TimeScale::TT, TimeScale::UTC, TimeScale::GPST, TimeScale::GST, TimeScale::BDT, TimeScale::QZSST];
+    let ex: Vec<(TimeScale, i128)> = eps.iter().copied().filter(|(t, _)| ts7.contains(t)).collect();
+    let nx = ex.len() as u64;
+    sweep(rep, "c19.to_time_scale", nx * 7, |i, out| {
+        let (src, c) = ex[(i / 7) as usize];
+        j_to_scale(c, src, ts7[(i % 7) as usize], &leap, out)
+    });
     let pf = parse_back_formats(q);
     rep.bound("parse_back_formats", pf.len() as u64);
     let utc: Vec<i128> = eps.iter().filter(|(ts, _)| *ts == TimeScale::UTC).map(|(_, c)| *c).chain([super::c08::expected_count(days1900(2017, 1, 7), 86_390 * NS_S, TimeScale::UTC), super::c08::expected_count(days1900(2024, 2, 29), 3661 * NS_S + 5, TimeScale::UTC)]).collect();
@@ -419,6 +457,7 @@ pub fn replay(check: &str, a: &[String], out: &mut Local) -> bool {
         }
         "c19.consts" => j_consts(pu64(&a[0]), p128(&a[2]), scale_from(&a[1]), out),
         "c19.offset" => j_offset(p128(&a[0]), p128(&a[1]), out),
+        "c19.to_time_scale" => j_to_scale(p128(&a[1]), scale_from(&a[0]), scale_from(&a[2]), &leap, out),
         "c19.parse_back" => j_parse_back(&a[0], p128(&a[1]), out),
         _ => return false,
     }
